@@ -298,7 +298,7 @@ def order_laws(w1: int, o1: int, n1: bool, w2: int, o2: int, n2: bool) -> bool:
 def utc_laws(wall: int, off_min: int, naive: bool) -> bool:
     """
     pre: dt_ok(wall, off_min) and part_ok(off_min, naive)
-    pre: finding_key(('utc', 'timestamp', 'eq'), off_min, naive, False) not in KNOWN
+    pre: finding_key(('utc', 'timestamp'), off_min, naive) not in KNOWN
     pre: H.fresh(wall, off_min, naive)
     post: _
     """
@@ -306,7 +306,8 @@ def utc_laws(wall: int, off_min: int, naive: bool) -> bool:
     exp_inst = wall - (0 if naive else off_min * 60 * US)
     uu = yq.ev('$d.utc.utc', d=d)
     ok = is_dt(uu) and off_us(uu) == 0 and inst(uu) == exp_inst
-    ok = ok and yq.ev('$d.utc = $d', d=d) is True and yq.ev('$d.utc != $d', d=d) is False
+    if not (naive and 'C20/naive-equality' in KNOWN):       # = / != between a naive and an aware value: listed class
+        ok = ok and yq.ev('$d.utc = $d', d=d) is True and yq.ev('$d.utc != $d', d=d) is False
     ok = ok and yq.ev('$d.utc - $d', d=d) == mk_ts(0) and S.us_of(yq.ev('$d.utc.offset', d=d)) == 0
     ok = ok and eq_num(yq.ev('$d.utc.timestamp', d=d), yq.ev('$d.timestamp', d=d))
     return H.done(ok)
@@ -655,13 +656,15 @@ def replay(cond, args):
     uses = {'ts_roundtrip': ('timestamp',), 'ts_inverse': ('timestamp',), 'timestamp_value': ('timestamp',),
             'utc_same_instant': ('utc',), 'probe_utc_keeps_zone': ('utc',), 'probe_naive_timestamp': ('timestamp',),
             'compare': ('eq',) if p.get('op') in ('=', '!=') else (), 'probe_naive_equality': ('eq',),
-            'order_laws': ('eq',), 'utc_laws': ('utc', 'timestamp', 'eq')}.get(f, ())
+            'order_laws': ('eq',), 'utc_laws': ('utc', 'timestamp')}.get(f, ())
     if f == 'probe_naive_timestamp':
         naive = True
     if f == 'probe_naive_equality':
         key = 'C20/naive-equality'
     else:
-        key = finding_key(uses, off, naive, vals.get('n2', False if f == 'utc_laws' else None))
+        key = finding_key(uses, off, naive, vals.get('n2'))
+        if f == 'utc_laws' and key is None and naive:
+            key = 'C20/naive-equality'
     what = describe(f, p, vals, err)
     return {'reproduced': True, 'key': key or 'C20/%s' % f, 'what': what}
 
